@@ -184,6 +184,9 @@ pub fn step(p: &Profile) -> BoxedStrategy<Step> {
     add(p.w_close, pa.clone().prop_map(|pause| Step::Close { pause }).boxed());
     add(p.w_status, Just(Step::Status).boxed());
     if p.pause_pct > 0 {
+        add(p.w_status, (0u8..2).prop_map(|pause| Step::StatusAt { pause }).boxed());
+    }
+    if p.pause_pct > 0 {
         add(p.w_resume, (any::<u8>(), prop::option::weighted(0.25, 0u8..4)).prop_map(|(p, pause)| Step::Resume { p, pause }).boxed());
     }
     add(p.w_droppool, Just(Step::DropPool).boxed());
